@@ -287,6 +287,46 @@ class Check(BaseCheck):
             rec.nt(('cellshaped', nm))
             if before != after or before != later:
                 rec.violation('C03/cell-shaped-variable-name-on-one-parser-changes-another', name=nm, other_parser_before=before, other_parser_after=after, new_parser=later)
+        # the SAME callable object subscribed on two parsers (a host wires one handler into every sheet's parser), through on() and
+        # through once(), for every event kind: each parser's subscription lives and dies on its own
+        for evname, f in (('callCellValue', 'A1+1'), ('callRangeValue', 'SUM(A1:B2)'), ('callVariable', 'zz_v'), ('callFunction', 'SUM(1,2)')):
+            for how in ('once', 'on-then-off', 'once-then-off'):
+                A, B = hotxlfp.Parser(), hotxlfp.Parser()
+                seen = []
+
+                def handler(*a):
+                    seen.append(1)
+                    if evname != 'callFunction':
+                        a[-1](5)
+                for P in (A, B):
+                    (P.once if how.startswith('once') else P.on)(evname, handler)
+                trace = []
+                if how == 'once':
+                    # first evaluation on each parser is answered by its own one-time listener, the second is not; whichever fires first
+                    for P in (A, A, B, B):
+                        n0 = len(seen)
+                        P.parse(f)
+                        trace.append(len(seen) - n0)
+                    expect = [1, 0, 1, 0]
+                elif how == 'on-then-off':
+                    A.parse(f)
+                    A.off(evname, handler)
+                    for P in (A, B, B):
+                        n0 = len(seen)
+                        P.parse(f)
+                        trace.append(len(seen) - n0)
+                    expect = [0, 1, 1]
+                else:
+                    A.off(evname, handler)
+                    for P in (A, B, B):
+                        n0 = len(seen)
+                        P.parse(f)
+                        trace.append(len(seen) - n0)
+                    expect = [0, 1, 0]
+                rec.case()
+                rec.nt(('shared-handler', evname, how))
+                if trace != expect:
+                    rec.violation('C03/subscription-of-a-shared-handler-on-one-parser-affects-another', event=evname, how=how, calls_per_evaluation=trace, expected=expect)
         # a custom function registered under a built-in name on ONE parser: that parser gets its own function, every other
         # parser keeps the built-in, in whatever order they are used (sequentially and nested)
         hotxlfp = env.load()
